@@ -226,7 +226,9 @@ def analyse(ctx, jobs, res, pid, do_predict=True, do_update=True):
 
 
 CODES = {2: "model undefined", 3: "state differs", 4: "covariance differs", 5: "recorded innovation differs",
-         6: "recorded innovation covariance differs", 7: "accept/reject decision differs"}
+         6: "recorded innovation covariance differs", 7: "accept/reject decision differs",
+         8: "a premise of Proofs/Refine.refine_py_update (shapes, inverse certificate S * linv S = I) fails on this case",
+         9: "a shape premise of Proofs/Refine.refine_py_predict fails on this case"}
 
 
 def run_coq(ctx, jobs, res, defs_text, checks, src, what):
